@@ -64,4 +64,11 @@ theorem runtime_cast_is_folded (r : QbeSem.Row) (hr : r ∈ Gen.qbeSel) (hk : r.
     (by simp only [rowSpec, hk])
   simpa using this
 
+open FerretVerif.QbeSem in
+/-- … and a value that travelled through memory (a field, an element, a by-value copy) comes back as the same canonical temporary:
+    8/16-bit values are truncated by the store and re-extended by the load exactly as the register arithmetic re-normalises them -/
+theorem memory_roundtrip_is_identity (r : QbeSem.MemRow) (hr : r ∈ Gen.qbeMem) (hl : r.ty ∈ legalTys) (v : Int) (hv : r.ty.inRange v) :
+    (memStore r.store (canon r.ty v)).bind (memLoad r.cls r.load) = some (canon r.ty v) :=
+  C01.mem_table_correct r hr hl v hv
+
 end FerretVerif.C09
